@@ -161,6 +161,7 @@ class Model:
     def __init__(self, spec, universe):
         self.spec = spec
         self.objs = {}
+        self.universe = {name: (cname, dict(kw)) for name, cname, kw in universe}
         for name, cname, kw in universe:
             c = spec.cls[cname]
             vals = {a: kw.get(a) for a in c.cols}
@@ -184,10 +185,12 @@ class Model:
         self.dead = None  # reason why the history left the modelled domain
         self.open = False  # outcome of the *next* flush is partly open (see expect_flush)
         self.nmerge = 0
+        self.last_merge = None
 
     def copy(self):
         m = Model.__new__(Model)
         m.spec = self.spec
+        m.universe = self.universe
         m.objs = {k: v.copy() for k, v in self.objs.items()}
         m.par = dict(self.par)
         m.deparented = set(self.deparented)
@@ -203,6 +206,7 @@ class Model:
         m.dead = self.dead
         m.open = self.open
         m.nmerge = self.nmerge
+        m.last_merge = self.last_merge
         return m
 
     # ------------------------------------------------------------ helpers
@@ -491,6 +495,79 @@ class Model:
             for y in ys:
                 self.append(x, key, y)
 
+    # ------------------------------------------------------------ merge
+    def merge(self, op):
+        """('merge', x, 'plain') | ('merge', x, 'rel', key, (names...)): the source is a transient copy of universe
+        object x (data column = 'mg'), optionally with one relationship set to copies of other universe objects (the
+        backref fills the reverse side on the copies).  Documented rule: target = object with that identity in the
+        session, else row loaded, else new pending instance; every attribute present on the source is copied;
+        relationships are followed where the cascade contains 'merge'.  -> name of the result"""
+        spec = self.spec
+        x = op[1]
+        src = {x: {}}
+        if op[2] == "rel":
+            key, targets = op[3], list(op[4])
+            kind, r = spec.find_rel(self.universe[x][0], key)
+            if kind == "m2o":
+                src[x][key] = targets[0] if targets else None
+                back, backlist = r.o2m, r.uselist
+            elif kind == "o2m":
+                src[x][key] = targets if r.uselist else (targets[0] if targets else None)
+                back, backlist = r.m2o, False
+            else:
+                src[x][key] = targets
+                back, backlist = (r.rkey if kind == "l" else r.lkey), True
+            for t in targets:
+                src.setdefault(t, {})
+                if back and not backlist:
+                    # the backref fills a scalar reverse side on the copy; a collection reverse side of a transient
+                    # copy only gets a queued append and does not count as present on the source
+                    src[t][back] = x
+        return self._merge_one(x, src, {})
+
+    def _merge_one(self, n, src, memo):
+        if n in memo:
+            return memo[n]
+        spec = self.spec
+        cname, kw = self.universe[n]
+        c = spec.cls[cname]
+        pk = kw[c.pk]
+        root = spec.root(cname)
+        target = None
+        for k, o in self.objs.items():
+            if o.life == "S" and spec.root(o.cls) == root and o.dbpk == pk:
+                target = k
+        if target is None:
+            if pk in self.rows[c.tabs[0].name]:
+                raise ModelError("row exists but its object is not in the session: an anonymous copy would be loaded")
+            target = "mg:%s:%s" % (cname, pk)
+            i = 1
+            while target in self.objs:
+                i += 1
+                target = "mg:%s:%s#%d" % (cname, pk, i)
+            self.objs[target] = Obj(cname, {a: None for a in c.cols}, "P")
+        elif self.objs[target].cls != cname:
+            raise ModelError("merge into an instance of another class")
+        memo[n] = target
+        o = self.objs[target]
+        for a in c.cols:
+            if a in kw:
+                o.vals[a] = kw[a]
+        o.vals[spec.data_col(cname)] = "mg"
+        self.dirty.add(target)
+        for key, val in src[n].items():
+            kind, r = spec.find_rel(cname, key)
+            casc = {"m2o": r.c_m2o, "o2m": r.c_o2m}.get(kind) if kind in ("m2o", "o2m") else (r.c_l if kind == "l" else r.c_r)
+            if "merge" not in casc:
+                continue
+            if kind == "m2o" or (kind == "o2m" and not r.uselist):
+                v = self._merge_one(val, src, memo) if val is not None else None
+                self.setrel(target, key, v)
+            else:
+                vs = [self._merge_one(t, src, memo) for t in val]
+                self.replace(target, key, vs)
+        return target
+
     def current(self, x, key):
         kind, r = self.spec.find_rel(self.objs[x].cls, key)
         if kind == "m2o":
@@ -513,19 +590,27 @@ class Model:
                 continue
             for mask in range(1 << len(soft)):
                 keep = {soft[i] for i in range(len(soft)) if mask >> i & 1}
-                a = self._flush_one(at_commit, keep, stale)
-                key = a["post"].canon() if not a["must_error"] else ("err", a["why"])
-                if key in seen:
-                    continue
-                seen.add(key)
-                a["tag"] = "f1" if keep else ("f3" if stale == "orphan" else None)
-                alts.append(a)
+                for cancel in (False, True):
+                    for stale_pk in (False, True):
+                        a = self._flush_one(at_commit, keep, stale, cancel, stale_pk)
+                        key = a["post"].canon() if not a["must_error"] else ("err", a["why"])
+                        if key in seen:
+                            continue
+                        seen.add(key)
+                        a["tag"] = "f1" if keep else ("f3" if stale == "orphan" else ("f9" if stale_pk else None))
+                        alts.append(a)
         first = alts[0]
         ok = [a for a in alts if not a["must_error"]]
+        known_err = None
+        if not first["error"]:
+            # catalogued defects that make a flush fail although the final state is fine
+            if self._flush_one(at_commit, set(), None, orphan_cascade=False)["must_error"]:
+                known_err = "f6"
+        known_any = "f7" if first["mixed_switch"] else None
         return dict(outcomes=[(a["tag"], a["post"]) for a in ok], error=any(a["error"] for a in alts), must_error=not ok,
-                    open=first["open"], why=first["why"])
+                    open=first["open"], why=first["why"], known_err=known_err, known_any=known_any)
 
-    def _flush_one(self, at_commit, keep, stale):
+    def _flush_one(self, at_commit, keep, stale, cancel=False, stale_pk=False, orphan_cascade=True):
         spec = self.spec
         m = self.copy()
         m.deparented -= keep
@@ -546,12 +631,15 @@ class Model:
                 elif o.life == "P" and o.oos:
                     o.life = "T"
         sess = [n for n in sess if m.objs[n].life in "PS"]
+        orphans0 = set(orphans)
         # ---- delete cascade, evaluated on the graph as it is now
         changed = True
         open_ = m.open or (bool(dele) and any(o.life == "D" and o.dbpk is not None for o in m.objs.values()))
         while changed:
             changed = False
             for x in sorted(dele):
+                if not orphan_cascade and x in orphans0:
+                    continue
                 nb = m.neighbours(x, "delete", lives="SD")
                 if stale == "all" or (stale == "orphan" and x in orphans):
                     # the cascade loads the collection from the database, which does not know about pending changes
@@ -571,6 +659,16 @@ class Model:
                     if n not in dele:
                         dele.add(n)
                         changed = True
+        if cancel:
+            # an object that joined a collection of a surviving in-session parent since the last flush is not deleted by
+            # this flush (it stays marked; "re-associated")
+            for n in sorted(dele):
+                o = m.objs[n]
+                for l in m.links_as_holder(o.cls):
+                    p = m.parent(l, n)
+                    if (l.o2m and p is not None and p not in dele and m.objs[p].life in "PS" and o.life == "S"
+                            and m.rows[l.table].get(o.dbpk, {}).get(l.fk) != m.objs[p].dbpk):
+                        dele.discard(n)
         sess = [n for n in sorted(m.objs) if m.objs[n].life in "PS"]
         warn_dead = None
         # ---- rows of surviving objects
@@ -583,23 +681,31 @@ class Model:
                 rows[t.name].pop(o.dbpk, None)
         # children of deleted parents on links without delete cascade: FK := NULL
         alt_err = False
+        may_err = False
         for l in spec.links:
             for n in sess:
-                if n in dele:
-                    continue
                 o = m.objs[n]
                 if not spec.isa(o.cls, l.holder):
                     continue
                 p = m.parent(l, n)
+                if n in dele:
+                    if p is not None and p in dele and o.life == "S" and m.rows[l.table].get(o.dbpk, {}).get(l.fk) != m.objs[p].dbpk:
+                        open_ = True  # joined a parent that is being deleted: the cascade may not see it
+                    continue
                 if p is not None and p in dele:
                     if l.o2m is None:
                         pass  # nothing manages the referencing side of a one-directional many-to-one: dangling reference
+                    elif o.life == "S" and "delete" in l.c_o2m:
+                        pass  # only in the variant where an orphan is deleted without its cascade: nothing nulls either
                     elif o.life == "S":
+                        if rows[l.table].get(o.dbpk, {}).get(l.fk) != m.objs[p].dbpk:
+                            open_ = True  # associated with the deleted parent since the last flush: open
                         m.par[(l.name, n)] = None
                     else:
                         # pending child of a deleted parent: nothing documented de-associates it
                         alt_err = True
-        # key changes: remember old keys
+        # key changes (ON UPDATE CASCADE / ORM cascade moves every referencing row)
+        moves = []
         for n in sess:
             if n in dele:
                 continue
@@ -607,23 +713,41 @@ class Model:
             c = spec.cls[o.cls]
             newpk = o.vals[c.pk]
             if o.life == "S" and o.dbpk != newpk:
-                # ON UPDATE CASCADE / ORM cascade moves every referencing row
-                for t in c.tabs:
-                    r = rows[t.name].pop(o.dbpk, None)
-                    if r is not None:
-                        if newpk in rows[t.name]:
-                            alt_err = True
-                        r[t.pk] = newpk
-                        rows[t.name][newpk] = r
-                for l in m.links_as_target(o.cls):
-                    for r in rows[l.table].values():
-                        if r.get(l.fk) == o.dbpk:
-                            r[l.fk] = newpk
-                for mm_ in spec.m2ms:
-                    if spec.isa(o.cls, mm_.left):
-                        assoc[mm_.table] = {((newpk if a == o.dbpk else a), b) for a, b in assoc[mm_.table]}
-                    if spec.isa(o.cls, mm_.right):
-                        assoc[mm_.table] = {(a, (newpk if b == o.dbpk else b)) for a, b in assoc[mm_.table]}
+                moves.append((n, o, c, o.dbpk, newpk))
+        if moves and any(o.life == "D" and o.dbpk is not None for o in m.objs.values()):
+            open_ = True
+        mixed_switch = False
+        for n in sess:
+            if n not in dele and m.objs[n].life == "P":
+                for d in dele:
+                    if (m.objs[d].cls != m.objs[n].cls and spec.root(m.objs[d].cls) == spec.root(m.objs[n].cls)
+                            and m.objs[d].dbpk == m.pk(n)):
+                        mixed_switch = True
+        oldkeys = {(spec.root(o.cls), old) for n, o, c, old, new_ in moves} | {(spec.root(m.objs[d].cls), m.objs[d].dbpk) for d in dele}
+        popped = []
+        for n, o, c, old, new_ in moves:
+            if (spec.root(o.cls), new_) in oldkeys:
+                may_err = True  # takes a key that another row gives up in the same flush: statement order decides
+            popped.append([rows[t.name].pop(old, None) for t in c.tabs])
+        stale_rows = {}
+        for (n, o, c, old, new_), prs in zip(moves, popped):
+            for t, r in zip(c.tabs, prs):
+                if r is not None:
+                    if new_ in rows[t.name]:
+                        alt_err = True
+                    r[t.pk] = new_
+                    rows[t.name][new_] = r
+            for l in m.links_as_target(o.cls):
+                for cpk, r in rows[l.table].items():
+                    if r.get(l.fk) == old:
+                        r[l.fk] = new_
+                        if not l.passive_updates:
+                            stale_rows[(l.name, cpk)] = new_
+            for mm_ in spec.m2ms:
+                if spec.isa(o.cls, mm_.left):
+                    assoc[mm_.table] = {((new_ if a == old else a), b_) for a, b_ in assoc[mm_.table]}
+                if spec.isa(o.cls, mm_.right):
+                    assoc[mm_.table] = {(a, (new_ if b_ == old else b_)) for a, b_ in assoc[mm_.table]}
         dup = False
         for n in sess:
             if n in dele:
@@ -663,6 +787,10 @@ class Model:
                     else:
                         # parent not in the session: "will not proceed"; the column keeps its value
                         warn_dead = "related object %s of %s not in session" % (p, n)
+                if stale_pk and o.life == "S" and (l.name, o.dbpk) in stale_rows:
+                    # passive_updates=False: the renamed parent's collection is loaded from the database during the
+                    # flush and every row found there follows the new key, whatever the objects say
+                    tr[l.fk] = stale_rows[(l.name, o.dbpk)]
         # ---- association rows
         for mm_ in spec.m2ms:
             a = assoc[mm_.table]
@@ -684,12 +812,19 @@ class Model:
                     lp, rp = m.pk(ln), m.pk(rn)
                 new.add((lp, rp))
             for n in sess:
+                if n in dele and spec.isa(m.objs[n].cls, mm_.left):
+                    for r in m.rights(mm_, n):
+                        if m.objs[r].life in "PS" and (m.objs[n].dbpk, m.objs[r].dbpk) not in a:
+                            may_err = True  # collection of an object that is being deleted was extended: open
                 if n in dele or not spec.isa(m.objs[n].cls, mm_.left):
                     continue
                 for r in m.rights(mm_, n):
                     ro = m.objs[r]
                     if ro.life in "PS" and r not in dele:
                         new.add((m.pk(n), m.pk(r)))
+                    elif r in dele:
+                        if (m.objs[n].dbpk, ro.dbpk) not in a:
+                            may_err = True  # put into a collection and deleted in the same flush: open
                     elif ro.life in "TD":
                         warn_dead = "collection member %s of %s not in session" % (r, n)
             for n in sess:
@@ -701,6 +836,8 @@ class Model:
             assoc[mm_.table] = new
         # ---- constraints of the final state
         bad = m._violations(rows, assoc, at_commit) or dup
+        if m._row_cycle(rows):
+            may_err = True  # writable only if the flush does not have to create the loop in one go
         # ---- post state
         for n in sorted(dele):
             o = m.objs[n]
@@ -731,8 +868,22 @@ class Model:
         if warn_dead:
             m.dead = warn_dead
         m.soft = {k for k in m.soft if k in m.deparented}
-        return dict(post=m, error=bool(bad or alt_err or open_),
+        return dict(post=m, mixed_switch=mixed_switch, may_err=may_err, error=bool(bad or alt_err or open_ or may_err),
                     must_error=bool(bad or alt_err) and not open_, open=open_, why=(m._violations(rows, assoc, at_commit) or ("duplicate key" if dup else None) or ("pending child of deleted parent" if alt_err else None)))
+
+    def _row_cycle(self, rows):
+        spec = self.spec
+        for l in spec.links:
+            if spec.root(l.holder) == spec.root(l.target) and not l.post_update:
+                # rows that refer to each other in a loop cannot be written without post_update (documented)
+                for pk in rows[l.table]:
+                    seen, k = set(), pk
+                    while k is not None and k not in seen:
+                        seen.add(k)
+                        k = rows[l.table].get(k, {}).get(l.fk)
+                    if k is not None:
+                        return "row cycle on %s.%s (needs post_update)" % (l.table, l.fk)
+        return None
 
     def _violations(self, rows, assoc, at_commit):
         spec = self.spec
@@ -935,7 +1086,10 @@ def enabled_ops(m, names, kinds=("add", "delete", "expunge", "set", "rel", "flus
                     else:
                         cur = kids[0] if kids else None
                         for y in [None] + cands:
-                            if y != cur:
+                            # taking over a child that is another parent's scalar child through the parent side leaves
+                            # the previous parent's attribute stale in memory (scalar-to-scalar backref); the child
+                            # side (child.parent = p) is the supported way and is enumerated
+                            if y != cur and (y is None or m.parent(l, y) is None):
                                 ops.append(("setrel", n, l.o2m, y))
             for mm_ in spec.m2ms:
                 sides = []
@@ -953,6 +1107,20 @@ def enabled_ops(m, names, kinds=("add", "delete", "expunge", "set", "rel", "flus
                             ops.append(("remove", n, key, y))
                     if cur and all(m.usable(y) for y in cur):
                         ops.append(("replace", n, key, ()))
+    if "merge" in kinds:
+        for n in names:
+            if n not in m.universe:
+                continue
+            cname = m.universe[n][0]
+            ops.append(("merge", n, "plain"))
+            for key, uselist in spec.rels_of(cname):
+                kind, r = spec.find_rel(cname, key)
+                tcls = {"m2o": r.target, "o2m": r.holder}.get(kind) if kind in ("m2o", "o2m") else (r.right if kind == "l" else r.left)
+                cands = [y for y in names if y in m.universe and y != n and spec.isa(m.universe[y][0], tcls)]
+                if uselist:
+                    ops.append(("merge", n, "rel", key, ()))
+                for y in cands[:2]:
+                    ops.append(("merge", n, "rel", key, (y,)))
     if "delete" in kinds:
         ops += [("delete", n) for n in use if m.objs[n].life == "S" and not m.objs[n].marked]
     if "expunge" in kinds:
@@ -967,7 +1135,7 @@ def enabled_ops(m, names, kinds=("add", "delete", "expunge", "set", "rel", "flus
 def apply_op(m, op):
     """apply a non-flush op to the model in place; raises ModelError where the model predicts an error"""
     k = op[0]
-    refs = [op[1]] if len(op) > 1 else []
+    refs = [op[1]] if len(op) > 1 and k != "merge" else []
     if k in ("setrel", "append", "remove") and op[3] is not None:
         refs.append(op[3])
     if k == "replace":
@@ -991,5 +1159,7 @@ def apply_op(m, op):
         m.remove(op[1], op[2], op[3])
     elif k == "replace":
         m.replace(op[1], op[2], list(op[3]))
+    elif k == "merge":
+        m.last_merge = m.merge(op)
     else:
         raise AssertionError(op)
